@@ -70,13 +70,13 @@ PROPS = {
         assumptions=[A['A4'], "contract of hash_to_field (count elements, element i a function of (msg,dst,count,i)) assumed here", A['TOOLS']],
     ),
     'C07': dict(
-        units_quick=['scalar'], units_thorough=['scalar', 'curve', 'cofactor', 'h2c'], timeout=600,
+        units_quick=['scalar', 'consts'], units_thorough=['scalar', 'consts', 'curve', 'cofactor', 'h2c'], timeout=600,
         claim="the membership predicate (real bodies, G1 and G2): in_subgroup(p) == (p is the identity or y^2 = x^3 + b) and [r]p = O, composed of "
               "is_on_curve (field formula exact), is_in_correct_subgroup_assuming_on_curve = mul(Fr::char()).is_zero() with mul the verified "
               "double-and-add; scale_by_cofactor multiplies by exactly h1 / h2. Closure of the subgroup under the group operations is group theory over "
               "the contracts of C01/C02; hash and map outputs: C14; decoders: C04/C19.",
         not_covered=["random(): rejection loop over an RNG", "generators: [r]G = O is established by the baseline tests g1_generator / g2_generator, not by the verifier",
-                     "the values of Fr::char() (= r) and of the curve coefficient constant are closed-term facts assumed in this unit"],
+                     "Fr MODULUS = r, B_COEFF = 4 and the G1 generator coordinates (standard values, on the curve) are checked as closed terms in unit consts; the G2 generator is not"],
         assumptions=[A['A3'], A['A4'], "ff::BitIterator contract (MSB-first bits of the limb value) assumed: dependency", A['D_FQ'], A['TOOLS']],
     ),
     'C02': dict(
@@ -123,7 +123,7 @@ PROPS = {
         assumptions=[A['A8'], "A8' correctness of Adj/Rodriguez-Henriquez Algorithm 9", A['D_FQ'], "(-y)^2 = y^2 in Fq2 stated as a ring fact (lemma_neg_sq2)", A['TOOLS']],
     ),
     'C15': dict(
-        units_quick=['sswu', 'sswuhelp', 'order'], units_thorough=['sswu', 'sswuhelp', 'order', 'tower'], timeout=600,
+        units_quick=['sswu', 'sswuhelp', 'order', 'consts'], units_thorough=['sswu', 'sswuhelp', 'order', 'consts', 'tower'], timeout=600,
         claim="PARTIAL: osswu_help (real generic body instantiated at Fq and Fq2) computes u^2, xi u^2, xi^2 u^4, the projective x1 candidate "
               "(-B/A)(1 + 1/(xi^2 u^4 + xi u^2)) as x0_num/x0_den with the exceptional denominator A*xi, and numerator / denominator of g(x1); "
               "chain_pm3div4 = x^((q-3)/4) and chain_p2m9div16 = x^((q^2-9)/16) exactly (exponent tracking of the real chains); the G1 and G2 maps "
@@ -131,11 +131,11 @@ PROPS = {
               "(G2: together with y^2 = g(x2)), Y = y Z^3, and sgn0(y) = sgn0(u) whenever y != 0.",
         not_covered=["that x1 is chosen exactly when g(x1) is a square, and the curve equation of the second candidate in G1 (Euler's criterion, A8)",
                      "that the G2 map's terminal panic is unreachable (A8; replaced by an assumed-unreachable stub)",
-                     "values of the constants XI, ELLP_A, ELLP_B, SQRT_M_XI_CUBED, ROOTS_OF_UNITY, ETAS (closed-term facts, not checked)"],
+                     "values of ROOTS_OF_UNITY and ETAS (not checked); XI = 11 resp. -(2+I), A', B' of both isogenous curves and SQRT_M_XI_CUBED^2 = -11^3 ARE checked as closed terms against RFC 9380 8.8 in unit consts"],
         assumptions=[A['A8'], A['D_FQ'], "laws of fpow / f2pow (specs/fpow.vrs: ring theory)", A['TOOLS'], "rewrites R11 (slice patterns), R4 (slice loops), R9a (terminal panic)"],
     ),
     'C08': dict(
-        units_quick=['kani:limbs'], units_thorough=['kani:limbs'], timeout=3000,
+        units_quick=['kani:limbs', 'consts'], units_thorough=['kani:limbs', 'consts'], timeout=3000,
         technique="contract harnesses checked by Kani/CBMC on the compiled crate: full 384-/256-bit input domain, loops bounded by the limb count with unwinding assertions (complete, not bounded)",
         claim="PARTIAL: for FqRepr (6 limbs) and FrRepr (4 limbs), on every input: is_zero, is_odd/is_even, add_nocarry and sub_noborrow (within their "
               "no-carry / no-borrow preconditions), div2, mul2, shr / shl by any n, num_bits, cmp (= order of the unsigned integers), From<u64>; and for Fq "
@@ -143,7 +143,7 @@ PROPS = {
               "modulus and a reduced result, is_zero exact, zero() is 0. Checked against a schoolbook word-level reference by CBMC (bit-precise). "
               "Method-call syntax is used as in the derived code, so an inherent method shadowing a trait method is what gets checked.",
         not_covered=["Montgomery multiplication / squaring / mont_reduce, from_repr / into_repr, inverse, pow, sqrt, legendre, read/write_be/le - not within CBMC's reach "
-                     "(36 64x64-bit multipliers) and no Verus unit completed", "the values of the constants MODULUS, R, R2, INV, GENERATOR, ROOT_OF_UNITY",
+                     "(36 64x64-bit multipliers) and no Verus unit completed", "the values of the constants R2, INV, GENERATOR, ROOT_OF_UNITY (MODULUS = q resp. r, R = 1, B_COEFF = 4, NEGATIVE_ONE = -1 and the from_okm shift constants ARE checked as closed terms in unit consts)",
                      "Ord on Fq/Fr (goes through into_repr)"],
         assumptions=["Kani 0.68 / CBMC 6.11; the unsafe transmute constructor pairing::bls12_381::transmute::{fq, fr} and mem::transmute_copy are used to move raw limbs in and out", "rustc codegen (MIR -> goto)"],
     ),
@@ -158,14 +158,14 @@ PROPS = {
         assumptions=["Kani 0.68 / CBMC 6.11", A['TOOLS']],
     ),
     'C13': dict(
-        units_quick=['okm'], units_thorough=['okm'], timeout=600,
+        units_quick=['okm', 'consts'], units_thorough=['okm', 'consts'], timeout=600,
         claim="PARTIAL (the reductions and the block splitting): Fq::from_okm(b) = be(b) mod q for every 64-byte block and Fr::from_okm(b) = be(b) mod r for every "
               "48-byte block (real bodies: two zero-padded big-endian reads, multiplication by the crate's constant 2^256 resp. 2^192, addition; the unwrap()s are "
               "proved safe because each half is below 2^256 < q resp. 2^192 < r); Fq2::from_ro takes the real part from bytes 0..64 and the u-coefficient from "
               "64..128; hash_to_field returns `count` elements, element i obtained from bytes [i*L, (i+1)*L) of expand_message(msg, dst, count*L) (generic real "
               "body, loop invariant; requires count*L not to overflow usize).",
         not_covered=["expand_message_xmd / expand_message_xof (digest builder chains, GenericArray, closures: outside the subset) - NOT decided",
-                     "the 255-block abort", "the values of the constants F_2_256 / F_2_192 are closed-term facts (stated as axioms here, proved in unit consts when present)"],
+                     "the 255-block abort", "the values of the constants F_2_256 / F_2_192 are closed-term facts: stated as axioms in unit okm and proved (by compute, from the same limbs) in unit consts"],
         assumptions=["D1/D2 contracts of read_be over Cursor/Chain readers, GenericArray slicing and typenum lengths (assumed stubs)", A['D_FQ'], A['TOOLS'],
                      "rewrite R12 (range indexing on GenericArray / Vec -> named accessors)"],
     ),
